@@ -7,6 +7,7 @@
 package vc17
 
 import (
+	"context"
 	"encoding/base64"
 	"encoding/hex"
 	"errors"
@@ -57,7 +58,7 @@ func (e *NetErr) Temporary() bool { return false }
 
 // Node is one link of an error chain.
 type Node struct {
-	Kind  string // E S O W eof nc oc dl X N XA NA
+	Kind  string // E S O W eof nc oc dl X N XA NA; F and ctx-deadline only for injection (no model line)
 	N     int
 	Txt   string // S: call, W/X/N: text, O: op, XA: text before the address, NA: AddrError.Err
 	Post  string // XA: text after the address
@@ -92,6 +93,8 @@ func (n *Node) Enc() string {
 		case "NA":
 			// (*net.AddrError).Error() = "address " + Addr + ": " + Err
 			parts = append(parts, "NA:"+hx("address ")+":"+c.Dst.encHost()+":"+hx(": "+c.Txt)+":0")
+		case "F":
+			parts = append(parts, "F:"+hx(c.Txt)+":"+hx(c.Post))
 		default:
 			parts = append(parts, c.Kind)
 		}
@@ -127,6 +130,11 @@ func (n *Node) Go() error {
 		return fmt.Errorf("%s%v%s", n.Txt, n.Dst.TCP, n.Post)
 	case "NA":
 		return &net.AddrError{Err: n.Txt, Addr: n.Dst.TCP.IP.String()}
+	case "F":
+		// the cause flattened into the text of a new error (fmt.Errorf("…: %v…", err)): nothing to unwrap
+		return fmt.Errorf("%s%v%s", n.Txt, n.Inner.Go(), n.Post)
+	case "ctx-deadline":
+		return context.DeadlineExceeded
 	}
 	panic("vc17: bad node kind " + n.Kind)
 }
@@ -145,7 +153,7 @@ func (n *Node) HasAddr(role byte) bool {
 // a *net.AddrError): text that no sanitiser working on error values can look into.
 func (n *Node) OpaqueAddr() bool {
 	for c := n; c != nil; c = c.Inner {
-		if c.Kind == "XA" || c.Kind == "NA" {
+		if c.Kind == "XA" || c.Kind == "NA" || c.Kind == "F" {
 			return true
 		}
 	}
